@@ -201,6 +201,20 @@ func strFor(class string, rng *rand.Rand, base string) string {
 		return GenXMLString(rng, 2, 8) + base + GenXMLString(rng, 2, 8)
 	case "nonascii":
 		return base + GenXMLString(rng, 3, 10)
+	case "srclit":
+		// a value that is itself one of the string literals of the library source under check (a constant the code
+		// compares against, a default, a URN it knows)
+		lits := SourceLiterals()
+		var pool []string
+		for _, l := range lits {
+			if strings.HasPrefix(l, "urn:") || strings.HasPrefix(l, "http") {
+				pool = append(pool, l)
+			}
+		}
+		if len(pool) == 0 {
+			pool = lits
+		}
+		return pool[rng.Intn(len(pool))]
 	case "blank":
 		// set, but nothing to see: white space only (distinct per setting, so that values cannot be confused)
 		n := 0
@@ -229,6 +243,9 @@ func stringsFor(class string, rng *rand.Rand, rac string) *oStrings {
 		NameID: strFor(class, rng, "alice@example.com"), SessionIndex: strFor(class, rng, "sess-1"), Status: at(saml2.StatusCodeSuccess),
 		ReqID: at("_req-9"), SSO: at(world.IdpSSO), SLO: at(world.IdpSLO), SPSLO: at(world.SLO),
 	}
+	if s.SPIssuer == s.IdpIssuer { // (the projection tells the two issuers apart by value)
+		s.IdpIssuer += "/idp"
+	}
 	n := map[string]int{"nil": 0, "zero": 0, "one": 1, "two": 2}[rac]
 	for i := 0; i < n; i++ {
 		s.Contexts = append(s.Contexts, strFor(class, rng, saml2.AuthnContextPasswordProtectedTransport+strconv.Itoa(i)))
@@ -247,6 +264,14 @@ func buildSP(in *oInput, st *oStrings, clock time.Time) *saml2.SAMLServiceProvid
 	}
 	if in.SPIssuer {
 		sp.ServiceProviderIssuer = st.SPIssuer
+	}
+	// settings that describe the IdP's side or other features and must have no effect on what is built here
+	if len(st.ACS)%2 == 1 {
+		sp.IdentityProviderSLOBinding = saml2.BindingHttpRedirect
+		sp.IdentityProviderSSOBinding = saml2.BindingHttpRedirect
+		sp.AllowMissingAttributes = true
+		sp.ValidateEncryptionCert = true
+		sp.MaximumDecompressedBodySize = 4096
 	}
 	if in.NameIdFormat {
 		sp.NameIdFormat = st.NameIdFormat
@@ -765,17 +790,24 @@ func metaSigner(sp *saml2.SAMLServiceProvider) (name string) {
 			name = "panic"
 		}
 	}()
-	md, err := sp.Metadata()
-	if err != nil || md == nil || md.SPSSODescriptor == nil {
-		return "na"
-	}
-	for _, kd := range md.SPSSODescriptor.KeyDescriptors {
-		if kd.Use == "signing" && len(kd.KeyInfo.X509Data.X509Certificates) > 0 {
-			der, _ := base64.StdEncoding.DecodeString(kd.KeyInfo.X509Data.X509Certificates[0].Data)
-			return keyName(der)
+	// both metadata entry points must publish the same signing certificate
+	of := func(md *types.EntityDescriptor, err error) string {
+		if err != nil || md == nil || md.SPSSODescriptor == nil {
+			return "na"
 		}
+		for _, kd := range md.SPSSODescriptor.KeyDescriptors {
+			if kd.Use == "signing" && len(kd.KeyInfo.X509Data.X509Certificates) > 0 {
+				der, _ := base64.StdEncoding.DecodeString(kd.KeyInfo.X509Data.X509Certificates[0].Data)
+				return keyName(der)
+			}
+		}
+		return "none"
 	}
-	return "none"
+	a, b := of(sp.Metadata()), of(sp.MetadataWithSLO(24))
+	if a != b {
+		return "Metadata:" + a + "/MetadataWithSLO:" + b
+	}
+	return a
 }
 
 func runMeta(in *oInput, sp *saml2.SAMLServiceProvider, st *oStrings, clock time.Time, o *oObs) {
@@ -919,8 +951,12 @@ func runMeta(in *oInput, sp *saml2.SAMLServiceProvider, st *oStrings, clock time
 	// families of key transport), validate through the SP
 	o.Decrypts = len(listed) > 0
 	sort.Strings(listed)
-	for _, alg := range listed {
-		for _, kt := range []string{idp.KtOAEP, idp.KtPKCS1} {
+	pick := int(clock.UnixNano()/1e6+int64(len(st.ACS))) % 4 // every fourth case tries all combinations, the others one
+	for i, alg := range listed {
+		for j, kt := range []string{idp.KtOAEP, idp.KtPKCS1} {
+			if pick != 0 && (i+2*j)%len(listed) != pick%len(listed) {
+				continue
+			}
 			if known(alg) && !metaDecrypts(sp, o.Enccert, alg, kt) {
 				o.Decrypts = false
 				o.Note += " cannot decrypt " + alg + " / " + kt
